@@ -43,23 +43,24 @@ def is_compiler_fence(name):
 
 HEADER_ROLES = ('generation', 'version')     # names of the header's members (PROTOCOL.md / ShmHeader)
 ROLES = {}                                    # struct field name -> role, filled by pointer_roles(fb)
+HDR_NAME_TO_ROLE = {'generation': 'generation', 'version': 'version'}   # header field name (as in this tree) -> role
 _ROLES_FOR = [None]
 
 
 def pointer_role(v):
     """role of a pointer *value* built in ShmWriter::new / ShmReader::new: which part of the mapping it addresses"""
-    if v[0] == 'ref' and v[1][0][0] == 'S' and v[1][1] and v[1][1][-1][0] == 'f' and v[1][1][-1][2] in HEADER_ROLES and \
+    if v[0] == 'ref' and v[1][0][0] == 'S' and v[1][1] and v[1][1][-1][0] == 'f' and v[1][1][-1][2] in HDR_NAME_TO_ROLE and \
             'mmap' in fmt(v[1][0][1]):
-        return v[1][1][-1][2]
+        return HDR_NAME_TO_ROLE[v[1][1][-1][2]]
     s = fmt(v)
     if 'mmap' not in s:
         return None
     for x in psi.walk(v):
         if x[0] == 't' and x[1] == 'call' and x[2][0].endswith(('::add', '::offset', '::byte_add')) and 'mmap' in fmt(x):
             return 'ceb'
-    for h in HEADER_ROLES:
+    for h, role in HDR_NAME_TO_ROLE.items():
         if s.endswith('.%s' % h) or ('.%s)' % h) in s:
-            return h
+            return role
     return 'mapping'
 
 
@@ -70,6 +71,9 @@ def pointer_roles(fb):
         return ROLES
     _ROLES_FOR[0] = fb
     ROLES.clear()
+    names = common.abi_names(fb)['hdr']
+    HDR_NAME_TO_ROLE.clear()
+    HDR_NAME_TO_ROLE.update({names['generation']: 'generation', names['version']: 'version'})
     from .open_model import layout_in
     for side in ('ShmWriter', 'ShmReader'):
         for b in fb.bodies(common.SHM):
